@@ -134,10 +134,13 @@ func sameStoredBytes(f *zFollower, b *nom.AccountBlock) (ok bool, what string) {
 		}
 		x, _ := hb.Serialize()
 		y, _ := o.Serialize()
-		if !bytes.Equal(x, y) {
+		if !bytes.Equal(x, y) || ownABHash(hb) != hb.Hash {
 			role := "block"
 			if i > 0 {
 				role = fmt.Sprintf("descendant %d", i-1)
+			}
+			if bytes.Equal(x, y) {
+				role += " (does not hash to its hash under the statement's pre-image)"
 			}
 			return false, fmt.Sprintf("%s %s/%d hash %s: original %d bytes (public key %x, signature %x, changes hash %s, base/total plasma %d/%d), stored %d bytes (public key %x, signature %x, changes hash %s, base/total plasma %d/%d)",
 				role, addrName(o.Address), o.Height, h8(o.Hash), len(y), []byte(o.PublicKey), o.Signature, h8(o.ChangesHash), o.BasePlasma, o.TotalPlasma,
@@ -227,7 +230,11 @@ func contractGossipVariants(c *Ctx, a *Node, f *zFollower, abFields []string, fa
 
 // variantsAfterReorg: family 2, at the end of a history. Producer, follower f and reference follower are at one height.
 // Returns false when the history must stop (a failure was reported or the nodes are no longer comparable).
-func variantsAfterReorg(c *Ctx, a *Node, f, ref *zFollower, abFields []string, fail func(string, ...interface{})) bool {
+//
+// pick == nil: the variants are those of the uncovered fields (pickStateVariant); otherwise pick chooses the variant of the
+// lost block (the covered class of s_variants_covered.go passes a picker that walks through every covered field) and
+// extraTries more variants are presented per lost block.
+func variantsAfterReorg(c *Ctx, a *Node, f, ref *zFollower, abFields []string, fail func(string, ...interface{}), pick func(c *Ctx, b *nom.AccountBlock) variantKind, extraTries int) bool {
 	H := a.Height()
 	if f.Height() != H || ref.Height() != H {
 		return true
@@ -329,10 +336,15 @@ func variantsAfterReorg(c *Ctx, a *Node, f, ref *zFollower, abFields []string, f
 		}
 		c.Hit("reorg-" + role + "-block-lost")
 		fields := withoutStr(abFields, "ChangesHash") // known finding F9 is judged by the per-round part
-		tries := 4 + c.R.Intn(4)
+		tries := 4 + c.R.Intn(4) + extraTries
 		for t := 0; t < tries && !poisoned; t++ {
 			v := cloneBlock(b)
-			vk := pickStateVariant(c, v, fields)
+			var vk variantKind
+			if pick != nil {
+				vk = pick(c, v)
+			} else {
+				vk = pickStateVariant(c, v, fields)
+			}
 			if !vk.f(c, v) {
 				continue
 			}
